@@ -214,16 +214,73 @@ fn take_panic() -> (String, String) {
         .unwrap_or_else(|| ("?".into(), "?".into()))
 }
 
+thread_local! {
+    /// Every panic / internal-assertion error met by `call`/`call_inf` during this run, keyed by location (C03's subject):
+    /// location -> (count, first message, case index of the first occurrence)
+    static BROKEN: RefCell<BTreeMap<String, (u64, String, u64)>> = const { RefCell::new(BTreeMap::new()) };
+    static CURRENT_CASE: std::cell::Cell<u64> = const { std::cell::Cell::new(0) };
+}
+
+fn note_broken(key: String, msg: &str) {
+    let case = CURRENT_CASE.with(|c| c.get());
+    BROKEN.with(|b| {
+        let mut b = b.borrow_mut();
+        if b.len() < 2000 || b.contains_key(&key) {
+            let e = b.entry(key).or_insert_with(|| (0, msg.chars().take(300).collect(), case));
+            e.0 += 1;
+        }
+    });
+}
+
+pub fn broken_registry() -> Vec<(String, u64, String, u64)> {
+    BROKEN.with(|b| b.borrow().iter().map(|(k, v)| (k.clone(), v.0, v.1.clone(), v.2)).collect())
+}
+
+/// Numbers inside a message make one defect look like many: replace digit runs.
+fn strip_numbers(s: &str) -> String {
+    let mut out = String::new();
+    let mut in_num = false;
+    for c in s.chars() {
+        if c.is_ascii_digit() {
+            if !in_num {
+                out.push('#');
+            }
+            in_num = true;
+        } else {
+            in_num = false;
+            out.push(c);
+        }
+    }
+    out
+}
+
 /// Call a fallible public operation.
 #[inline]
 pub fn call<T>(f: impl FnOnce() -> TemporalResult<T>) -> Out<T> {
     match catch_unwind(AssertUnwindSafe(f)) {
         Ok(Ok(v)) => Out::Ok(v),
-        Ok(Err(e)) => Out::Err(e.kind(), e.message().to_string()),
+        Ok(Err(e)) => {
+            if e.kind() == ErrorKind::Assert {
+                note_broken(format!("assert-error: {}", strip_numbers(e.message())), e.message());
+            }
+            Out::Err(e.kind(), e.message().to_string())
+        }
         Err(_) => {
             let (l, m) = take_panic();
+            note_broken(broken_key(&l, &m), &m);
             Out::Panic(l, m)
         }
+    }
+}
+
+/// Key of a panic: file:line + message (digits masked) for the repository's own code; for a dependency only the
+/// file, because its debug assertions fire at many neighbouring lines for the same far-away inputs.
+fn broken_key(loc: &str, msg: &str) -> String {
+    if loc.starts_with("src/") || loc.starts_with("temporal_capi/") || loc.starts_with("provider/") {
+        format!("panic at {loc}: {}", strip_numbers(msg).chars().take(80).collect::<String>())
+    } else {
+        let file = loc.rsplit_once(':').map(|x| x.0).unwrap_or(loc);
+        format!("panic in dependency {file}")
     }
 }
 
@@ -234,6 +291,7 @@ pub fn call_inf<T>(f: impl FnOnce() -> T) -> Out<T> {
         Ok(v) => Out::Ok(v),
         Err(_) => {
             let (l, m) = take_panic();
+            note_broken(broken_key(&l, &m), &m);
             Out::Panic(l, m)
         }
     }
@@ -330,6 +388,7 @@ impl Report {
     #[inline]
     pub fn begin(&mut self) -> bool {
         self.case_idx += 1;
+        CURRENT_CASE.with(|c| c.set(self.case_idx));
         match self.cfg.only {
             None => true,
             Some(i) => i == self.case_idx,
@@ -456,6 +515,7 @@ impl Report {
             "extra": self.extra,
             "exhaustive": self.exhaustive,
             "harness_errors": self.harness_errors,
+            "broken": broken_registry().into_iter().map(|(k, n, m, c)| json!({"key": k, "count": n, "message": m, "case_idx": c})).collect::<Vec<_>>(),
         })
     }
 }
